@@ -389,8 +389,9 @@ def check(r):
     r.log(f"numeric support: {n} cases, {len(fails)} failures, worst error/tolerance {worst:.2e}")
     for what, rep in fails[:5]:
         r.violation(what, rep)
-    if r.tier == 'thorough':
-        r.hygiene()
+    if r.tier == 'thorough' and ok:
+        r.coqchk('Props/C07.v')
+        r.hygiene('Props/C07.v')
 
 
 def falsify(r):
